@@ -168,7 +168,15 @@ func runCLI(c Case) string {
 	if strings.Contains(stderr.String(), "panic:") || strings.Contains(stderr.String(), "goroutine ") {
 		return "PANIC " + hexs(stderr.String()[:min(200, stderr.Len())])
 	}
-	return fmt.Sprintf("EXIT %d NERR %d OUT %s", code, nerr, hexs(string(out)))
+	// ELINES: all non-empty lines on standard error, whatever their form (for the oracle "a failing statement is
+	// reported": fewer lines than failures means one was dropped silently)
+	elines := 0
+	for _, l := range strings.Split(stderr.String(), "\n") {
+		if strings.TrimSpace(l) != "" {
+			elines++
+		}
+	}
+	return fmt.Sprintf("EXIT %d NERR %d OUT %s ELINES %d", code, nerr, hexs(string(out)), elines)
 }
 
 var cliStatements = []string{
